@@ -136,6 +136,14 @@ func c11History(srv *svc.Server, c *core.Collector, seed uint64, hid int, base i
 	stopSend := make(chan struct{})
 	var swg sync.WaitGroup
 	nsenders := 2 + r0.Intn(3)
+	if r0.Chance(1, 3) {
+		nsenders = 6 + r0.Intn(4) // bursts: more commands in flight for one key than its 3-slot command queue holds
+	}
+	if r0.Chance(1, 3) {
+		// hold the writer of one key's connections in a slow write callback, so that commands queue up behind it
+		svc.SlowWrite.Store(keys[0], 2*time.Millisecond)
+		defer svc.SlowWrite.Delete(keys[0])
+	}
 	for g := 0; g < nsenders; g++ {
 		swg.Add(1)
 		go func(g int) {
@@ -170,8 +178,104 @@ func c11History(srv *svc.Server, c *core.Collector, seed uint64, hid int, base i
 			}
 		}(g)
 	}
+	burst := hid%4 == 3
+	if burst {
+		// deliberate burst: one long-lived owner whose writer is held in a slow write callback, 8 commands fired at once
+		// (more than the 3-slot command queue), a duplicate-key connect in the middle; the owner stays online throughout,
+		// so no command may come back "not exist" and the duplicate must be refused.
+		close(stopSend)
+		swg.Wait()
+		stopSend = make(chan struct{})
+		key := keys[0]
+		svc.SlowWrite.Store(key, 4*time.Millisecond)
+		defer svc.SlowWrite.Delete(key)
+		r := core.NewRand(seed, "c11b", uint64(hid))
+		owner := &c11Conn{id: int(c11ConnID.Add(1)), key: key}
+		owner.firstSerial = uint16(owner.id)
+		conns = append(conns, owner)
+		t, err := svc.Dial(srv.Addr, r.Bool(), key)
+		if err != nil {
+			return nil, true, nil, 0
+		}
+		odone := make(chan struct{})
+		joined := make(chan struct{}, 1)
+		go func() {
+			defer close(odone)
+			for rx := range t.Rx {
+				if rx.F == nil {
+					continue
+				}
+				if rx.F.ID == 0x8103 && len(rx.F.Body) == 10 {
+					mu.Lock()
+					delivered[binary.BigEndian.Uint32(rx.F.Body[6:])] = owner.id
+					mu.Unlock()
+				}
+				if rx.F.ID == 0x8001 {
+					select {
+					case joined <- struct{}{}:
+					default:
+					}
+				}
+			}
+		}()
+		owner.joinCall = svc.Stamp()
+		t.Write(t.Frame(0x0002, owner.firstSerial, nil))
+		select {
+		case <-joined:
+		case <-time.After(20 * time.Second):
+			t.Close()
+			return nil, true, nil, 0
+		}
+		// keep the writer busy: heartbeats whose replies go through the slow write callback
+		for k := 0; k < 3; k++ {
+			t.Write(t.Frame(0x0002, uint16(40000+k), nil))
+		}
+		var bwg sync.WaitGroup
+		for g := 0; g < 8; g++ {
+			bwg.Add(1)
+			go func(g int) {
+				defer bwg.Done()
+				tag := c11Tag.Add(1)
+				body := binary.BigEndian.AppendUint32([]byte{1, 0, 0, 0xF0, 0x03, 4}, tag)
+				sr := &c11Send{key: key, tag: tag, call: svc.Stamp()}
+				res := sendCmd(srv.G, key, consts.P8103SetTerminalParams, body, 25*time.Millisecond, 25*time.Millisecond+slackFor(25*time.Millisecond))
+				if res.returned {
+					sr.ret = svc.Stamp()
+					sr.res = "routed"
+					if res.kind == "notexist" {
+						sr.res = "notexist"
+					}
+				} else {
+					sr.ret, sr.res = 1<<60, "stranded"
+				}
+				mu.Lock()
+				sends = append(sends, sr)
+				mu.Unlock()
+			}(g)
+		}
+		// a duplicate-key connect while the burst is in flight
+		dup := &c11Conn{id: int(c11ConnID.Add(1)), key: key}
+		dup.firstSerial = uint16(dup.id)
+		mu.Lock()
+		conns = append(conns, dup)
+		mu.Unlock()
+		if t2, err := svc.Dial(srv.Addr, t.V2019, key); err == nil {
+			dup.joinCall = svc.Stamp()
+			t2.Write(t2.Frame(0x0002, dup.firstSerial, nil))
+			t2.WaitClosed(20 * time.Second)
+			dup.leaveCall = svc.Stamp()
+			t2.Close()
+		}
+		bwg.Wait()
+		owner.leaveCall = svc.Stamp()
+		t.Close()
+		<-odone
+	}
 	var cwg sync.WaitGroup
 	nclients := 4 + r0.Intn(5)
+	if burst {
+		nclients = 0
+	}
 	for g := 0; g < nclients; g++ {
 		cwg.Add(1)
 		go func(g int) {
